@@ -12,14 +12,34 @@ DAEMON = os.path.join(DAEMON_TARGET, "debug", "quandaryd")
 SCRATCH = os.path.join(qv.BUILD, "c31-scratch")
 
 
+STAMP = os.path.join(DAEMON_TARGET, ".qv-built-from")
+
+
 def build_daemon():
     env = dict(os.environ, CARGO_NET_OFFLINE="true", CARGO_TARGET_DIR=DAEMON_TARGET)
     env.pop("RUSTFLAGS", None)
+    # The target directory is shared by all source trees ($QV_REPO), and cargo's freshness test for the root package
+    # is by modification time only: after a build from a scratch worktree, the (older) files of another tree count
+    # as fresh and the binary of the OTHER tree would be driven.  So the tree the artefacts were built from is
+    # recorded, and the crate's own artefacts (not its dependencies) are discarded whenever the tree changes.
+    try:
+        built_from = open(STAMP).read().strip()
+    except OSError:
+        built_from = None
+    if built_from != qv.REPO and os.path.isdir(DAEMON_TARGET):
+        qv.sh(["cargo", "clean", "--offline", "-p", "quandary", "--manifest-path", os.path.join(qv.REPO, "Cargo.toml")],
+              timeout=300, env=env)
+        try:
+            os.remove(DAEMON)
+        except OSError:
+            pass
     rc, out = qv.sh(["cargo", "build", "--offline", "--bin", "quandaryd", "--manifest-path",
                      os.path.join(qv.REPO, "Cargo.toml")], timeout=1500, env=env)
     if rc != 0 or not os.path.exists(DAEMON):
         qv.log(out[-3000:])
         raise RuntimeError(f"cannot build quandaryd from {qv.REPO}")
+    with open(STAMP, "w") as f:
+        f.write(qv.REPO + "\n")
     shutil.rmtree(SCRATCH, ignore_errors=True)
     os.makedirs(SCRATCH, exist_ok=True)
 
@@ -125,14 +145,78 @@ def fixed_cases():
            "S:zz4./1/904/ok.1.1;sub.ex./1/21/ok.2.10")
 
 
+# ---- the key-reload scenario: K:<step>;<step>;...  (see harness/src/bin/impl_c31.rs)
+KEY_NAMES = ["k1", "k2", "k3"]
+
+
+def fixed_key_cases():
+    yield "K:k1.a;-"                                        # the only key removed: the key set becomes EMPTY
+    yield "K:k1.a,k2.b,k3.c;k1.a,k2.b;k1.a;-;k2.a"          # removed one by one, ALL removed, one re-added
+    yield "K:-;k1.a;k1.a,k2.b;k1.a,k2.b,k3.c"               # none at start-up, added one by one
+    yield "K:k1.a;k1.b;k1.c;k1.a"                           # re-added with another algorithm / another secret
+    yield "K:k1.a,k2.c;k1.a,k2.c;k1.a,k2.c"                 # unchanged
+    yield "K:k1.a;!k1.c,K1.a;k2.b;!k2.a,k2.a;-;!k3.a,k3.b"  # rejected configurations (a key twice) change nothing
+    yield "K:-;-;k3.b;-;-"                                  # empty at start-up, empty again
+    yield "K:K1.a,k2.b;k2.b,k1.a;K2.b;k3.c,k1.c"            # letter case, order, replaced by disjoint sets
+
+
+def key_history(rng):
+    cur = {}
+    steps = []
+    for i in range(rng.randint(2, 6)):
+        r = rng.random()
+        if i > 0 and r < 0.12:
+            # a configuration the daemon must reject: some key name twice (possibly re-cased, other variant)
+            ks = {n: rng.choice("abc") for n in rng.sample(KEY_NAMES, rng.randint(1, 3))}
+            toks = [f"{n}.{v}" for n, v in ks.items()]
+            n = rng.choice(list(ks))
+            toks.insert(rng.randrange(len(toks) + 1), f"{rng.choice([n, n.upper()])}.{rng.choice('abc')}")
+            steps.append("!" + ",".join(toks))
+            continue
+        if r < 0.30:
+            cur = {}                                                    # ALL removed
+        elif r < 0.42 and i > 0:
+            pass                                                        # unchanged
+        elif r < 0.60 and cur:
+            cur = dict(cur); del cur[rng.choice(list(cur))]             # one removed
+        elif r < 0.75 and cur:
+            cur = dict(cur); n = rng.choice(list(cur))                  # one re-keyed (algorithm and/or secret)
+            cur[n] = rng.choice([v for v in "abc" if v != cur[n]])
+        elif r < 0.88 and len(cur) < 3:
+            cur = dict(cur); cur[rng.choice([n for n in KEY_NAMES if n not in cur])] = rng.choice("abc")  # one added
+        else:
+            cur = {n: rng.choice("abc") for n in rng.sample(KEY_NAMES, rng.randint(1, 3))}  # replaced wholesale
+        toks = [f"{n.upper() if rng.random() < 0.15 else n}.{v}" for n, v in cur.items()]
+        rng.shuffle(toks)
+        steps.append(",".join(toks) if toks else "-")
+    return "K:" + ";".join(steps)
+
+
 def gen(rng, tier):
     build_daemon()
     yield from fixed_cases()
     quick = tier == "quick"
-    for _ in range(150 if quick else 6000):
-        yield history(rng, 6)
-    for _ in range(25 if quick else 1000):
-        yield history(rng, 14)
+    zone_cases = [history(rng, 6) for _ in range(150 if quick else 6000)]
+    zone_cases += [history(rng, 14) for _ in range(25 if quick else 1000)]
+    # drawn AFTER the zone histories (which therefore are what they were before this scenario existed)
+    key_cases = list(fixed_key_cases()) + [key_history(rng) for _ in range(6 if quick else 400)]
+    # spread over the run (the framework shards the case list in order)
+    every = max(1, len(zone_cases) // len(key_cases))
+    for i, c in enumerate(zone_cases):
+        if i % every == 0 and key_cases:
+            yield key_cases.pop(0)
+        yield c
+    yield from key_cases
+
+
+def _key_sets(case):
+    """The key set in force after every step of a K: case (names lower-cased -> variant)."""
+    cur, out = {}, []
+    for step in case[2:].split(";"):
+        if not step.startswith("!"):
+            cur = {} if step == "-" else {k.split(".")[0].lower(): k.split(".")[1] for k in step.split(",")}
+        out.append(cur)
+    return out
 
 
 def _failing_reload(case):
@@ -141,6 +225,10 @@ def _failing_reload(case):
 
 
 def nontrivial(case, impl, model, oracle):
+    if case.startswith("K:"):
+        # a reload removed a key (or re-keyed it) that was in force before
+        ks = _key_sets(case)
+        return impl.startswith("ok") and any(b.get(n) != v for a, b in zip(ks, ks[1:]) for n, v in a.items())
     # a reload (not the initial load) saw a configured zone whose file does not load
     return impl.startswith("ok") and _failing_reload(case)
 
@@ -148,6 +236,16 @@ def nontrivial(case, impl, model, oracle):
 def classify(case, impl, model, oracle):
     if not impl.startswith("ok"):
         return " ".join(impl.split()[:2])
+    if case.startswith("K:"):
+        ks = _key_sets(case)
+        tags = []
+        if any(a and not b for a, b in zip(ks, ks[1:])):
+            tags.append("all-removed")
+        if any(n in b and b[n] != v for a, b in zip(ks, ks[1:]) for n, v in a.items()):
+            tags.append("re-keyed")
+        if "!" in case:
+            tags.append("rejected-config")
+        return "keys:" + ("+".join(tags) if tags else "plain")
     tags = []
     if _failing_reload(case):
         tags.append("failing-file")
@@ -180,7 +278,14 @@ CHECK = {
                  "configuration the daemon must reject (duplicate zone, broken TOML); the real quandaryd is started, SIGHUPed "
                  "after every step and every configured name, a name below it and two unrelated names are queried over UDP "
                  "(SOA): answering zone + serial / SERVFAIL / REFUSED; non-trivial = a reload saw a configured zone whose file "
-                 "does not load; distinct = distinct case line"),
+                 "does not load; distinct = distinct case line.  KEY reload (case lines K:...; 8 fixed + 6 random histories quick, "
+                 "2-6 steps): every step is the set of [[tsig_keys]] (names k1..k3, each as hmac-sha256/secret A, hmac-sha1/secret A "
+                 "or hmac-sha256/secret B; possibly EMPTY; keys added, removed one by one, ALL removed, re-keyed, unchanged, "
+                 "re-cased/re-ordered, or a rejected configuration naming a key twice); after each SIGHUP - and a second, rejected "
+                 "SIGHUP whose error message proves the first reload has returned - one SOA query correctly signed (crate Writer, "
+                 "time = now) per (name, algorithm, secret) of the universe and one unsigned query: ok / badkey (RCODE 9, TSIG error 17, "
+                 "empty MAC, no answer/authority records) / badsig; expected: a key verifies iff it is in the CURRENT step's set "
+                 "(stated expectation in ocaml/run_c31.ml, not a Coq model); non-trivial = a reload removed or re-keyed a key in force"),
     }],
     "trusted_base": [
         "Coq 8.16.1 kernel (vm_compute only in the concrete regression witness)",
@@ -192,6 +297,9 @@ CHECK = {
         "file system as explicit input: fs_mtime/fs_load are arguments of the model; the harness realises only the combinations a "
         "real file system produces (time+loads, time+fails, missing); ErrorKind::Unsupported and 'metadata fails but the file loads' "
         "are covered by the theorems only",
+        "TSIG key reload (run.rs reload_zones_and_keys / make_tsig_key_map, config.rs duplicate-key test) is NOT in the Coq model: the "
+        "K: histories are decided against the stated expectation computed in ocaml/run_c31.ml (the key set in force is exactly the last "
+        "accepted configuration's; C10's table says what a request signed with a key inside/outside that set gets)",
         "not exhibited by the model (trusted): signal delivery and coalescing (signal-hook), the RwLock/Arc catalog swap in the server "
         "(C32's subject), file-system timestamp granularity (a file rewritten within the timestamp resolution counts as unchanged), "
         "zone-file parsing/validation itself (C23-C25), TOML parsing",
@@ -210,7 +318,10 @@ MANIFEST = {
                    "zone's file and previous state; the mtime skip is sound; the same for every history of SIGHUPs including rejected "
                    "configurations. Proof of the reload function, partial w.r.t. the daemon shell: signal handling, the concurrent catalog "
                    "swap and timestamp granularity are outside the model; the tie to the code is a differential run of ~180 (quick) histories "
-                   "against the real quandaryd process over UDP."),
+                   "against the real quandaryd process over UDP. The same suite drives the daemon's TSIG KEY reload (14 quick "
+                   "histories of key sets incl. all keys removed / re-keyed / rejected configurations; signed probes per key, algorithm and "
+                   "secret after every SIGHUP) against a stated expectation - the key set in force is exactly the last accepted "
+                   "configuration's (C10/C32 at the daemon level) - differential test only, no theorem."),
     "level_note": ("Trusted: Coq kernel, extraction, the hand-written model's correspondence to the Rust code (differentially tested against "
                    "the running daemon, not proved), zone-file parsing/validation, signal delivery. The pinned code violated the property "
                    "(previous entry found by longest-match lookup: a failing child zone reinstated its parent's stale entry and never gave "
